@@ -64,7 +64,7 @@ fn c19_7c_monotone_in_out() {
     kani::cover!(x1 < x2 && matches!(e, Easing::InPowf(_)));
 }
 
-// @ob id=C19.7d,C06.4f strength=axioms axioms=POW tier=thorough timeout=3600 fn=tween.rs::Easing::apply
+// @ob id=C19.7d,C06.4f strength=axioms axioms=POW tier=quick fn=tween.rs::Easing::apply
 // @req InOutPowi, InOutPowf with positive powers; 0 <= x1 <= x2 <= 1
 // @ens apply(x1) <= apply(x2), including across the midpoint where the two halves meet
 #[kani::proof]
